@@ -246,6 +246,10 @@ def rule_html(ctx: Ctx):
     for s in stmts_local(fn.body):
         if isinstance(s, ast.Assign) and isinstance(s.value, ast.Call) and (dotted(s.value.func) or "").endswith("fromstring") and [norm(a) for a in s.value.args] == [P]:
             tree_var = norm(s.targets[0])
+    rebinds = [x for x in stmts_local(fn.body) if isinstance(x, (ast.Assign, ast.AugAssign, ast.AnnAssign)) and P in assigned_names(x)]
+    ctx.ob("R-C20-5", "clean.html/parses-its-input", tree_var is not None and not rebinds,
+           f"the parser is handed the argument itself (`{P}` is not rewritten first: {[norm(x)[:60] for x in rebinds]}); characters removed or replaced before "
+           "parsing are missing from the text nodes that come back", node=rebinds[0] if rebinds else fn, mod=m)
     xp = [c for c in calls if isinstance(c.func, ast.Attribute) and c.func.attr == "xpath" and norm(c.func.value) == tree_var]
     others = [c for c in calls if tree_var and (tree_var in [norm(a) for a in c.args] or (isinstance(c.func, ast.Attribute) and norm(c.func.value) == tree_var and c.func.attr != "xpath"))]
     ctx.ob("R-C20-5", "clean.html/tree-not-modified", tree_var is not None and len(xp) == 1 and not others,
